@@ -7,6 +7,7 @@ import (
 	"encoding/hex"
 	"encoding/json"
 	"fmt"
+	"net/http"
 	"os"
 	"os/exec"
 	"strconv"
@@ -72,10 +73,20 @@ func printable(b []byte) string {
 }
 
 type guardReq struct {
-	VodRoot string `json:"vodroot"`
-	Target  string `json:"target"`
-	Warm    bool   `json:"warm,omitempty"`
+	VodRoot string            `json:"vodroot"`
+	Target  string            `json:"target"`
+	Warm    bool              `json:"warm,omitempty"`
+	Method  string            `json:"method,omitempty"` // default GET
+	Body    []byte            `json:"body,omitempty"`
+	Hdr     map[string]string `json:"hdr,omitempty"`
+	Handler string            `json:"handler,omitempty"` // "" = livesim2 router; otherwise a name registered with GuardRegister
 }
+
+// GuardRegister makes another http.Handler (e.g. the ingest receiver) available in the guard child
+// under a name. It must be called from an init function so that parent and child agree.
+func GuardRegister(name string, mk func() http.Handler) { guardHandlers[name] = mk }
+
+var guardHandlers = map[string]func() http.Handler{}
 
 const (
 	guardCPUTripMS  = 600    // CPU consumed by the child for ONE request before it is declared hung
@@ -237,6 +248,37 @@ func GuardGet(vodRoot, target string) GResp {
 	}
 }
 
+// GuardDo serves any request (method, body, headers) in the guard child: on the livesim2 router over
+// vodRoot (handler ""), or on a handler registered with GuardRegister.
+func GuardDo(vodRoot, handler, method, target string, body []byte, hdr map[string]string) GResp {
+	guardMu.Lock()
+	defer guardMu.Unlock()
+	for attempt := 0; ; attempt++ {
+		if guardCur == nil {
+			guardCur = guardStart()
+		}
+		gp := guardCur
+		if handler == "" && !gp.warmed[vodRoot] {
+			g := gp.roundTrip(guardReq{VodRoot: vodRoot, Warm: true}, guardWarmTripMS)
+			if g.Hung || g.Died || g.Status != 1 {
+				gp.kill()
+				guardCur = nil
+				if attempt >= 2 {
+					panic(fmt.Sprintf("harness: guard child cannot set up a server on %s: %+v", vodRoot, g))
+				}
+				continue
+			}
+			gp.warmed[vodRoot] = true
+		}
+		g := gp.roundTrip(guardReq{VodRoot: vodRoot, Target: target, Method: method, Body: body, Hdr: hdr, Handler: handler}, guardCPUTripMS)
+		if g.Hung || g.Died {
+			gp.kill()
+			guardCur = nil
+		}
+		return g
+	}
+}
+
 // GuardChildMain is the child side: it never returns.
 func GuardChildMain() {
 	in := os.NewFile(3, "guard-in")
@@ -245,7 +287,8 @@ func GuardChildMain() {
 		os.Exit(3)
 	}
 	srvs := map[string]*Srv{}
-	rd := bufio.NewReaderSize(in, 1<<16)
+	others := map[string]http.Handler{}
+	rd := bufio.NewReaderSize(in, 1<<22)
 	for {
 		line, err := rd.ReadBytes('\n')
 		if err != nil {
@@ -256,6 +299,27 @@ func GuardChildMain() {
 			os.Exit(4)
 		}
 		var g GResp
+		if rq.Handler != "" {
+			h := others[rq.Handler]
+			if h == nil {
+				mk := guardHandlers[rq.Handler]
+				if mk == nil {
+					os.Exit(5)
+				}
+				h = mk()
+				others[rq.Handler] = h
+			}
+			m := rq.Method
+			if m == "" {
+				m = "GET"
+			}
+			g = Observe(DoHandler(h, m, rq.Target, rq.Body, rq.Hdr, ""))
+			b, _ := json.Marshal(g)
+			if _, err := out.Write(append(b, '\n')); err != nil {
+				os.Exit(0)
+			}
+			continue
+		}
 		s := srvs[rq.VodRoot]
 		if s == nil {
 			s, err = NewSrv(SrvOpts{VodRoot: rq.VodRoot})
@@ -270,7 +334,11 @@ func GuardChildMain() {
 		if rq.Warm {
 			g = GResp{Status: 1}
 		} else {
-			g = Observe(s.Get(rq.Target))
+			m := rq.Method
+			if m == "" {
+				m = "GET"
+			}
+			g = Observe(s.Do(m, rq.Target, rq.Body, rq.Hdr))
 		}
 		b, _ := json.Marshal(g)
 		if _, err := out.Write(append(b, '\n')); err != nil {
